@@ -20,6 +20,10 @@ pub struct DatasetSpec {
     /// still first seen in increasing order.
     #[serde(default)]
     pub by_symbol: bool,
+    /// Hand the server a dataset that went through Serialize / Deserialize (via serde_json::Value, which
+    /// keeps every f64 bit for bit), as a dataset loaded from a stored file would.
+    #[serde(default)]
+    pub via_serde: bool,
 }
 
 impl DatasetSpec {
@@ -28,6 +32,15 @@ impl DatasetSpec {
     }
 
     pub fn build(&self) -> Penelope {
+        let p = self.build_direct();
+        if self.via_serde {
+            let v = serde_json::to_value(&p).expect("harness: Penelope must serialise");
+            return serde_json::from_value(v).expect("harness: Penelope must deserialise from its own serialisation");
+        }
+        p
+    }
+
+    fn build_direct(&self) -> Penelope {
         let mut p = Penelope::new();
         if self.by_symbol {
             if let Some(full) = (0..self.symbols.len()).find(|s| self.rows.iter().all(|r| r[*s].is_some())) {
@@ -98,6 +111,7 @@ impl DatasetSpec {
             dates: self.dates[..keep].to_vec(),
             rows: self.rows[..keep].to_vec(),
             by_symbol: self.by_symbol,
+            via_serde: self.via_serde,
         }
     }
 }
@@ -148,6 +162,7 @@ pub struct WorldStats {
     pub late_start: u64,
     pub early_end: u64,
     pub by_symbol: u64,
+    pub via_serde: u64,
 }
 
 pub fn gen_dataset(rng: &mut Rng, name: &str, cfg: &WorldCfg, st: &mut WorldStats) -> DatasetSpec {
@@ -275,11 +290,17 @@ pub fn gen_dataset(rng: &mut Rng, name: &str, cfg: &WorldCfg, st: &mut WorldStat
     if by_symbol {
         st.by_symbol += 1;
     }
+    // drawn from a fork so that the main stream (and with it every existing run) stays as it was
+    let via_serde = rng.fork("via-serde").one_in(4);
+    if via_serde {
+        st.via_serde += 1;
+    }
     DatasetSpec {
         name: name.to_string(),
         symbols,
         dates,
         rows,
         by_symbol,
+        via_serde,
     }
 }
